@@ -600,6 +600,17 @@ func decideC05(c *vh.Case, spec c05Spec) {
 				c.Violate("close-never-returned", "%s.Close never returned", side)
 				return
 			}
+			// ... and no Close call - the first or one that overlaps it - returns while a handler of its session
+			// that was running when it was called is still running
+			for _, cr := range closeRet[side] {
+				for n, hh := range handlers[side] {
+					if hh.start.Seq < cr.Seq && hh.finish.Seq > cr.Seq {
+						c.Violate("close-returned-under-running-handler", "%s: a Close call returned at %dus (seq %d) while the handler for nonce %d was still running (started %dus, finished %dus); %d Close call(s) on that side, the first at %dus",
+							side, cr.T, cr.Seq, n, hh.start.T, hh.finish.T, len(closeRet[side]), fc.T)
+						return
+					}
+				}
+			}
 			if spec.Transport == "mem" || spec.Transport == "pipe" || spec.Transport == "pipe-stubborn" {
 				for _, cr := range closeRet[side] {
 					// the session's own work that had completed when this Close call returned
